@@ -40,12 +40,16 @@ EXPLANATION = ("the *_exact theorems say the model predicate at exact reals is m
                "floating-point evaluation is order-independent, equality outside the 1e-9*L band elsewhere) and checks "
                "the implementation against an exact-rational oracle, point_to_* distances and support functions")
 PARTIAL = {
-    "cross_agreement_distance": "pointInX p <-> point_to_X distance = 0 is not a Lean theorem here (point_to_box/disk/"
-                                "cylinder/ellipsoid belong to the C10/C11 model); it is checked by the search oracle on "
-                                "the real code only",
-    "contained_le_support": "proved for any support point of the set in the sense of D3.IsSupport; that the colliders' "
-                            "support functions return such points is C03's theorem (own set definitions there), the "
-                            "link is checked numerically by the search oracle",
+    "cross_agreement_distance (closed for box, cylinder, disk)":
+        "D3.C13Link: box_agreement_distance and cylinder_agreement_distance are iff (pointInX p <-> point_to_X distance "
+        "= 0 on the C11 model); disk_agreement_distance gives dist = 0 -> accepted and accepted -> dist <= diskSlab "
+        "(the predicate's slab). Remaining: no point_to_ellipsoid model, C13 has no ellipse predicate; those are "
+        "checked by the search oracle only",
+    "contained_le_support (closed)":
+        "D3.C13Link: the predicates coincide with C03's point sets (X_sets_iff for sphere, capsule, cylinder, cone, "
+        "ellipsoid, box, disk) and an accepted point projects no further than the actual modelled support function's "
+        "point (X_contained_le_support, X_support_contained, collider_contained_le_support); the disk carries the slack "
+        "diskSlab*|d.n| which is attained (disk_slack_attained)",
     "mesh_hull_subset": "only hull ⊆ predicate is proved (under the vertex/face precondition); predicate ⊆ hull for a "
                         "closed outward-oriented convex mesh is not proved (the harness' exact oracle covers it)",
 }
